@@ -112,7 +112,7 @@ pub fn lines_strategy() -> impl Strategy<Value = InputCase> {
             "> note", ">", "", " ", "-- c", "[- c -]", "@a{1%kg}", "@&a{2}", "#b{}", "~{5%min}", "~t{}", "@&(~1)x{}",
             "@&(=1)y{}", "@a|b{}", "@c{1-2%g}", "@d{=1 kg}(n)", "bake at 180 ºC", "@./x/y{}", "time: 5", "servings: [1, 2]",
             "servings: []", "tags: []", "time: {prep: 1h, cook: 20}", "author: {name: a, url: \"https://x.y\"}", "? [a]\n: b",
-            "locale: en_GB", "source: A <https://a.b/c>", "Weigh 2.1.3 g and 10.11.2024 kg", "\u{feff}Mix @a{1%kg}", "\u{feff}é @{1%kg} é", "@&a(\u{a0}sifted\u{a0})", "#&b{}(\u{3000}清潔)", "@&a{2}(\u{a0})", "== sec == trailing 2", "= a = b", ">>[-\n\n\n", "a @&x[- c\n\n\n d -]{} b", "[- c -]>> k: v", "[- c -] >> servings: 4", "  >> k: v", "\t>> k: v", "[- a\nb -]>> k2: v", "x >> k: v", "[-]>> k: v", ">>k:v", ">> k : v : w", "Add 5 g of salt", "use 3 kg", "prep time: 10 min", "cook time: 1.5 hours",
+            "locale: en_GB", "source: A <https://a.b/c>", "Weigh 2.1.3 g and 10.11.2024 kg", "\u{feff}Mix @a{1%kg}", "\u{feff}é @{1%kg} é", "@&a(\u{a0}sifted\u{a0})", "#&b{}(\u{3000}清潔)", "@&a{2}(\u{a0})", "== sec == trailing 2", "= a = b", ">>[-\n\n\n", "a @&x[- c\n\n\n d -]{} b", ">> servings: 0", "@a{0%kg}", ">> servings: 0\n\n@a{0%kg} @b{1%kg} @c{0-2%cup} #d{0} ~{0%min} 0 kg", "---\nservings: 0\n---\n@a{0%kg} and @b{0 tsp}", ">> servings: 0|2\n@x{0%lb}(n) @&x{0%oz}", "@b{99999999999999999999999999999999999999999999999999999999999999999999999999999999999999999999999999999999999999999999999999999999999999999999999999999999999999999999999999999999999999999999999999999999999999999999999999999999999999999999999999999999999999999999999999999999999999999999999999999999999999999999999%g}", "---\n#\ntitle: Café\ntime: 1h\nprep time: 10 min\n---", "---\n# é\n\nx: [é,\n  ö]\ncook time: 5\ntime: 2h\n---", "@water{250\u{a0}ml}", "~{=5\u{a0}min}", "@x{1\u{3000}kg}", "---- Grandma ----", "--- my notes", "[-- note --]", "[- note --] @x{}", "#frying pan|pan{}", "#&pan{}", "@../../shared/dough{}", "@./a/./b{}", "@./a//b{1%kg}", "@.\\win\\path{}", "@./trailing/{}", "Season with @ salt to taste", "Heat the # 2 burner", "~ now or ~{} later", "[- c -]>> k: v", "[- c -] >> servings: 4", "  >> k: v", "\t>> k: v", "[- a\nb -]>> k2: v", "x >> k: v", "[-]>> k: v", ">>k:v", ">> k : v : w", "Add 5 g of salt", "use 3 kg", "prep time: 10 min", "cook time: 1.5 hours",
         ]).prop_map(|s| s.to_string()),
         1 => (proptest::sample::select(vec!["time", "prep time", "cook time", "servings", "tags", "author", "source", "locale", "title", "duration"]),
               proptest::sample::select(vec![">> ", ""]), metadata_value_strategy())
